@@ -594,10 +594,7 @@ class MultiSetup_PreGER(BaseSetup, GeometryMixin):
         For further information, see `scipy.signal.decimate
         <https://docs.scipy.org/doc/scipy/reference/generated/scipy.signal.decimate.html>`_.
         """
-        n = kwargs.get("n")
-        ftype = kwargs.get("ftype", "iir")
-        axis = kwargs.get("axis", 0)
-        zero_phase = kwargs.get("zero_phase", True)
+        axis = kwargs.pop("axis", 0)
 
         newdatasets = []
         Ndats = []
@@ -607,10 +604,7 @@ class MultiSetup_PreGER(BaseSetup, GeometryMixin):
                 data=data,
                 fs=self.fs,
                 q=q,
-                n=n,
-                ftype=ftype,
                 axis=axis,
-                zero_phase=zero_phase,
                 **kwargs,
             )
             newdatasets.append(newdata)
